@@ -42,7 +42,10 @@
 EXTENDS Integers, Sequences, FiniteSets, TLC
 
 CONSTANTS CBug,        \* selects a negative twin; "none" = the code as it is
-          NameOrder    \* all request-header names of the universe, as a lexicographically sorted sequence
+          NameOrder,   \* all request-header names of the universe, as a lexicographically sorted sequence
+          AcrhOK(_, _),   \* AcrhOK(s, r): are the ACRH field lines of r approved for the discrete names of s?
+                          \*   (element level in CorsMC: ApprovedElems; byte level in TraceConform: Acrh!Approved)
+          AcrhEcho(_)     \* AcrhEcho(r): the request's ACRH field lines as reflected in Access-Control-Allow-Headers
 
 Safelisted == {"GET", "HEAD", "POST"}
 AUTH == "authorization"
@@ -113,10 +116,10 @@ HeaderStep(s, r, dbg, buf) ==
   IF (IF CBug = "f5" THEN ~r.acrh.present ELSE r.acrh.lines = <<>>) THEN [ok |-> TRUE, buf |-> buf]
   ELSE IF s.hStar /\ ~s.cred
     THEN [ok |-> TRUE, buf |-> Set(buf, "ACAH", IF s.hAuth /\ CBug # "dropAuth" THEN << <<"*", AUTH>> >> ELSE << <<"*">> >>)]
-  ELSE IF s.hStar /\ s.cred THEN [ok |-> TRUE, buf |-> Set(buf, "ACAH", EchoLines(r))]
+  ELSE IF s.hStar /\ s.cred THEN [ok |-> TRUE, buf |-> Set(buf, "ACAH", AcrhEcho(r))]
   ELSE IF ~dbg
-    THEN IF s.hNames # {} /\ ApprovedElems(Sorted(s.hNames), r.acrh.lines)
-           THEN [ok |-> TRUE, buf |-> Set(buf, "ACAH", EchoLines(r))]
+    THEN IF s.hNames # {} /\ AcrhOK(s, r)
+           THEN [ok |-> TRUE, buf |-> Set(buf, "ACAH", AcrhEcho(r))]
            ELSE [ok |-> FALSE, buf |-> buf]
   ELSE IF s.hNames # {} THEN [ok |-> TRUE, buf |-> Set(buf, "ACAH", << Sorted(s.hNames) >>)]
   ELSE [ok |-> FALSE, buf |-> buf]
